@@ -190,6 +190,13 @@ func showHeld(held [][]byte) string {
 // (announcement + frames, as the real writer produced it) arrives over loopback TCP in the given
 // segments; transport.NewTCP + mode.Detect + ReadMsg must deliver it whatever the segmentation.
 func c08DetectTCP(segs [][]byte) string {
+	ctx, cancel := context.WithCancel(context.Background())
+	defer cancel()
+	return c08DetectTCPWith(ctx, 10*time.Second, segs)
+}
+
+// c08DetectTCPWith: the same with the connection configured as the caller says (c08.cfg, c08cfg.go)
+func c08DetectTCPWith(ctx context.Context, timeout time.Duration, segs [][]byte) string {
 	done := make(chan struct{})
 	go func() {
 		defer close(done)
@@ -209,9 +216,7 @@ func c08DetectTCP(segs [][]byte) string {
 		}
 		_ = tc.Close()
 	}()
-	ctx, cancel := context.WithCancel(context.Background())
-	defer cancel()
-	conn, err := transport.NewTCP(transport.TCPConnConfig{Ctx: ctx, Host: c08Listener.Addr().String(), Timeout: 10 * time.Second})
+	conn, err := transport.NewTCP(transport.TCPConnConfig{Ctx: ctx, Host: c08Listener.Addr().String(), Timeout: timeout})
 	if err != nil {
 		return "dial-error:" + err.Error()
 	}
@@ -715,6 +720,8 @@ func c08Exec(op []string) string {
 			return "werr=" + e
 		}
 		return c08DetectTCP(splitAt(b, parseSplits(op[2], len(b))))
+	case "c08.cfg":
+		return c08CfgExec(op)
 	case "c08.tcp":
 		return c08Tcp(op[1], op[2], op[3:])
 	case "c08.dl":
@@ -772,6 +779,8 @@ func c08Judge(op []string, out string) string {
 			}
 		}
 		return strings.Join(whys, " || ")
+	case "c08.cfg":
+		return c08CfgJudge(op, out)
 	case "c08.rt", "c08.det":
 		md, msgs := op[1], parseBytesList(op[3])
 		var shown []string
@@ -1304,6 +1313,7 @@ func c08Gen(g *G) {
 		g.Emit(fmt.Sprintf("c08.tcp %s each c:-404 m:5:01020304 c:-429", md), "tcp-code", "mode="+md)
 	}
 	c08GenHistory(g)
+	c08GenCfg(g)
 }
 
 // c08GenHistory: (f) what one connection of the process received must not reach another. Streams whose first
